@@ -60,7 +60,7 @@ package grpcmux
 //@   ensures result1 != nil ==> result0 == nil   [C08.session]
 
 //@ func (*grpcmux.GRPCServerMuxer).Accept
-//@   dead return#3 a knock is only acknowledged for an id whose listener is registered (fixed defect D4)
+//@   dead return#2 a knock is only acknowledged for an id whose listener is registered (fixed defect D4)
 //@   nopanic [C08.total] [C20.nopanic]
 //@   bounded peer-dead [C09.timer] [C18.gor]
 //@   wait send#1 the brokered listener for the knocked ID is being accepted on by its gRPC server (AcceptAndServe) until it is closed
